@@ -660,6 +660,12 @@ func (c08) Gen(r *kern.Rng, tier string, idx int) *Trace {
 	if sc.NoMulti && r.Pct(40) {
 		sc.ExtraBetween = r.Pick(1, 1, 2, 3)
 	}
+	if r.Pct(25) {
+		// a pooled Reader: an earlier file read member by member (or not), then Reset onto this one
+		p := genPrior(r, "gzip")
+		p.NoMulti = r.Pct(70)
+		sc.Prior = []scen.Prior{p}
+	}
 	return &Trace{Property: "C08", Family: "R-multi", R: sc}
 }
 
